@@ -23,9 +23,12 @@ def admitted_tags(tag_row, pruning_size, use_beta, beta):
     if k == 0:
         return set(), set()
     kth = scores[order[min(k, len(order)) - 1]]
-    nxt = scores[order[k]] if k < len(order) else -math.inf
     may = {t for t in range(len(scores)) if scores[t] >= kth}
-    must = {t for t in range(len(scores)) if scores[t] > nxt}
+    if k < len(order):
+        nxt = scores[order[k]]
+        must = {t for t in range(len(scores)) if scores[t] > nxt}
+    else:
+        must = set(range(len(scores)))          # the whole list fits: tags of probability 0 (-inf) included
     if use_beta:
         best = scores[order[0]]
         pb = math.exp(best) if best > -700 else 0.0
